@@ -219,6 +219,15 @@ func (tw *TumblingWindow) Add(data any) {
 		}
 	}
 
+	// An on-time event (not behind the watermark) that precedes the current window can
+	// only precede the very first window, which was aligned to the first event seen: no
+	// window has fired yet at or after its timestamp. Move the current window back so the
+	// event is reported in its own window instead of being buffered forever.
+	if timeChar == types.EventTime && tw.currentSlot != nil && eventTime.Before(*tw.currentSlot.Start) &&
+		(tw.watermark == nil || !tw.watermark.IsEventTimeLate(eventTime)) {
+		tw.currentSlot = tw.createSlotFromStart(alignWindowStart(eventTime, tw.size))
+	}
+
 	row := types.Row{
 		Data:      data,
 		Timestamp: eventTime,
